@@ -110,6 +110,15 @@ inline AccessRecorder*& recorder()
         if (gmgpolar_verif::recorder())                                                                                \
             gmgpolar_verif::recorder()->iter(__FILE__, __LINE__, (long)(i));                                           \
     } while (0)
+/* A scalar that a work-sharing loop accumulates into: VERIF_SCALAR_DECL before the construct remembers the address of the
+ * original variable, VERIF_SCALAR_RW inside the loop body reports a write to it only if the body still sees THAT object
+ * (a reduction / private clause gives the body its own copy, which is not reported) */
+#define VERIF_SCALAR_DECL(var) const void* const verif_shared_addr_##var = (const void*)&(var)
+#define VERIF_SCALAR_RW(var)                                                                                           \
+    do {                                                                                                               \
+        if (gmgpolar_verif::recorder() && (const void*)&(var) == verif_shared_addr_##var)                              \
+            gmgpolar_verif::recorder()->range(&(var), (long)sizeof(var), true);                                        \
+    } while (0)
 #define VERIF_EV(...)                                                                                                  \
     do {                                                                                                               \
         if (gmgpolar_verif::sink())                                                                                    \
@@ -144,6 +153,12 @@ inline AccessRecorder*& recorder()
     do {                                                                                                               \
     } while (0)
 #define VERIF_ITER(i)                                                                                                  \
+    do {                                                                                                               \
+    } while (0)
+#define VERIF_SCALAR_DECL(var)                                                                                         \
+    do {                                                                                                               \
+    } while (0)
+#define VERIF_SCALAR_RW(var)                                                                                           \
     do {                                                                                                               \
     } while (0)
 #endif
